@@ -505,12 +505,15 @@ static void judge(vh::Ctx& c, const Problem& P, const RunCfg& cfg, const RunOut&
         for (auto& kv : worst) {
             const Rec& r = o.log[kv.second.k];
             int wi = 0; double e = excess(r.x, &wi), sl = slackOf(r.x);
-            c.check(kv.first, e, sl, [&] {
+            // an excursion of a few ulp of the bound (x_k + step*d rounded past the bound) is keyed apart from a gross one
+            const bool ulpLevel = e > sl && e <= 8 * U * std::max(std::fabs(P.lb[wi]) < INF ? std::fabs(P.lb[wi]) : 0.0, std::fabs(P.ub[wi]) < INF ? std::fabs(P.ub[wi]) : 0.0) + 1e-300;
+            c.check(kv.first + (ulpLevel ? ":by-rounding(<=8ulp-of-bound)" : ""), e, sl, [&] {
                 return Json::obj().set("argument", vh::jvec(r.x)).set("component", wi).set("excess", e).set("allowed_relaxation", sl).set("evaluation_index", (long)kv.second.k)
                     .set("lb_i", P.lb[wi]).set("ub_i", P.ub[wi]).set("problem", jprob(P, cfg)); });
         }
         int wi = 0; double e = excess(xr, &wi);
-        c.check("result-outside-bounds/" + an + ":" + gm, e, 0.0, [&] { return Json::obj().set("x", vh::jvec(xr)).set("component", wi).set("excess", e).set("problem", jprob(P, cfg)); });
+        const bool ulpLevel = e > 0 && e <= 8 * U * std::max(std::fabs(P.lb[wi]) < INF ? std::fabs(P.lb[wi]) : 0.0, std::fabs(P.ub[wi]) < INF ? std::fabs(P.ub[wi]) : 0.0) + 1e-300;
+        c.check("result-outside-bounds/" + an + ":" + gm + (ulpLevel ? ":by-rounding(<=8ulp-of-bound)" : ""), e, 0.0, [&] { return Json::obj().set("x", vh::jvec(xr)).set("component", wi).set("excess", e).set("problem", jprob(P, cfg)); });
     }
     // constraints (interior point only)
     if (alg == InteriorPoint && P.me + P.mi > 0) {
@@ -607,7 +610,7 @@ static void runCase(vh::Ctx& c, long idx, vh::Rng& r) {
             if (r.coin(0.3)) { for (int i = 0; i < n; ++i) P.x0[i] = xf[i] + r.sym(1.0); if (P.hasBounds) for (int i = 0; i < n; ++i) P.x0[i] = std::min(std::max(P.x0[i], P.lb[i]), P.ub[i]); P.x0Feasible = false; }
         }
         cfg.alg = InteriorPoint; setGradMode(r, cfg, slot == 5);
-        cfg.tol = std::max(cfg.tol, 1e-7);
+        cfg.tol = std::max(cfg.tol, 1e-7); cfg.maxIter = 150;      // bounds the cost under ASan; hitting it is counted, not judged
         c.setPhase("InteriorPoint quadratic " + boundCls);
         RunOut o = runOnce(c, P, cfg);
         judge(c, P, cfg, o, "", boundCls);
@@ -661,7 +664,7 @@ static void runCase(vh::Ctx& c, long idx, vh::Rng& r) {
         if (kind == 2) genConstraints(r, P, r.integer(0, 1), r.integer(1, 3), P.x0);
         cfg.construct = 1 + (int)((idx / 30) % 4);       // 1,2,3: BestAvailable spellings; 4 -> CFSQP request falls back when the library is absent
         if (cfg.construct == 4) { cfg.construct = 0; cfg.alg = CFSQP; }
-        cfg.tol = std::max(cfg.tol, 1e-7);
+        cfg.tol = std::max(cfg.tol, 1e-7); cfg.maxIter = 150;
         const OptimizerAlgorithm expect = P.me + P.mi > 0 ? InteriorPoint : (P.hasBounds ? LBFGSB : LBFGS);
         c.setPhase("BestAvailable");
         if (cfg.alg == CFSQP && Optimizer::isAlgorithmAvailable(CFSQP)) { c.skip("cfsqp-library-present"); break; }
@@ -673,11 +676,11 @@ static void runCase(vh::Ctx& c, long idx, vh::Rng& r) {
     } break;
     default: {  // 8: Rosenbrock with the three descent algorithms
         const int which = (int)((idx / 10) % 3);
-        genRosenbrock(r, P, r.integer(2, 10));
+        genRosenbrock(r, P, which == 2 ? r.integer(2, 5) : r.integer(2, 10));     // interior point under ASan is slow on Rosenbrock: keep it small
         if (which >= 1) boundCls = genBounds(r, P, std::vector<double>(P.n, 1.0), 2.0, 0.3);
         cfg.alg = which == 0 ? LBFGS : (which == 1 ? LBFGSB : InteriorPoint);
         setGradMode(r, cfg, (idx / 30) % 2 == 1);
-        cfg.tol = std::max(cfg.tol, 1e-6);
+        cfg.tol = std::max(cfg.tol, 1e-6); if (cfg.alg == InteriorPoint) cfg.maxIter = 60;
         c.setPhase(std::string("Rosenbrock ") + algStr(cfg.alg));
         RunOut o = runOnce(c, P, cfg);
         judge(c, P, cfg, o, "", boundCls);
